@@ -201,7 +201,9 @@ where
     };
     let mut res: SmallVec<[_; N_NODES_ON_STACK]> = SmallVec::new();
     let mut cur_byte_offset = 0usize;
-    let mut close_additional_paren = false;
+    // paren depths at which a binary operator in function call syntax needs an
+    // additional closing paren
+    let mut depths_to_close_additionally: SmallVec<[i32; 8]> = SmallVec::new();
     let mut open_paren_count = 0;
     for (i, c) in text.char_indices() {
         if c == ' ' && i == cur_byte_offset {
@@ -215,12 +217,12 @@ where
                 open_paren_count += 1;
             } else if c == ')' {
                 cur_byte_offset += 1;
-                open_paren_count -= 1;
                 res.push(ParsedToken::<T>::Paren(Paren::Close));
-                if close_additional_paren && open_paren_count == 0 {
+                if depths_to_close_additionally.last() == Some(&open_paren_count) {
                     res.push(ParsedToken::Paren(Paren::Close));
-                    close_additional_paren = false;
+                    depths_to_close_additionally.pop();
                 }
+                open_paren_count -= 1;
             } else if c == ',' {
                 // this is for binary operators with function call syntax.
                 // we simply replace op(a,b) by ((a)op(b)) where the outer parens
@@ -230,9 +232,14 @@ where
                 let op_idx = find_op_of_comma(&res).ok_or_else(|| {
                     exerr!("could not find operator for comma, could be operator with more than 2 args (not supported), missing operator, or paren mismatch",)
                 })?;
+                if depths_to_close_additionally.contains(&open_paren_count) {
+                    return Err(exerr!(
+                        "operators with more than 2 args are not supported, second comma at {}",
+                        text_rest
+                    ));
+                }
                 let op_at_comma = mem::replace(&mut res[op_idx], ParsedToken::Paren(Paren::Open));
-                close_additional_paren = true;
-                open_paren_count = 1;
+                depths_to_close_additionally.push(open_paren_count);
                 res.push(ParsedToken::Paren(Paren::Close));
                 res.push(op_at_comma);
                 res.push(ParsedToken::Paren(Paren::Open));
@@ -245,18 +252,10 @@ where
                 let var_name = &text_rest[1..n_count];
                 cur_byte_offset += n_count + 1;
                 res.push(ParsedToken::Var(var_name));
-                if close_additional_paren && open_paren_count == 0 {
-                    res.push(ParsedToken::Paren(Paren::Close));
-                    close_additional_paren = false;
-                }
             } else if let Some(num_str) = is_numeric(text_rest) {
                 let n_bytes = num_str.len();
                 cur_byte_offset += n_bytes;
                 res.push(ParsedToken::<T>::Num(num_str.parse::<T>().map_err(to_ex)?));
-                if close_additional_paren && open_paren_count == 0 {
-                    res.push(ParsedToken::Paren(Paren::Close));
-                    close_additional_paren = false;
-                }
             } else if let Some((idx, op)) = find_ops(cur_byte_offset_tmp) {
                 let n_bytes = op.repr().len();
                 cur_byte_offset += n_bytes;
@@ -269,10 +268,6 @@ where
                 let n_bytes = var_str.len();
                 cur_byte_offset += n_bytes;
                 res.push(ParsedToken::<T>::Var(var_str));
-                if close_additional_paren && open_paren_count == 0 {
-                    res.push(ParsedToken::Paren(Paren::Close));
-                    close_additional_paren = false;
-                }
             } else {
                 return Err(exerr!("don't know how to parse {}", text_rest));
             }
